@@ -44,6 +44,7 @@ class Lock:
         if self.owner is None:
             raise RuntimeError("release unlocked lock")
         self.owner = None
+        s.point(label="lock.rel'")     # others may take the lock before the releaser goes on
 
     def locked(self):
         return self.owner is not None
